@@ -604,6 +604,60 @@ fn a2_inputs_for(control: u8) -> Vec<Vec<u8>> {
     out
 }
 
+/// A3: string / octet-string elements whose length field is within 48 of the maximum of its width, placed
+/// behind 0..2 leading members (and a nested container) inside each kind of container, nesting 1..2:
+/// sums of member lengths that only overflow together with what came before.
+fn a3_inputs_for(control: u8) -> Vec<Vec<u8>> {
+    let mut out = Vec::new();
+    let vt = control & 0x1f;
+    let tt = control >> 5;
+    if !(0x0c..=0x13).contains(&vt) {
+        return out;
+    }
+    let w = 1usize << ((vt - 0x0c) % 4);
+    let max: u64 = if w == 8 { u64::MAX } else { (1u64 << (8 * w)) - 1 };
+    let prefixes: [&[u8]; 5] = [&[], &[0x24, 0x02, 0x07], &[0x24, 0x02, 0x07, 0x24, 0x03, 0x08], &[0x15, 0x18], &[0x30, 0x01, 0x02, 0xaa, 0xbb]];
+    for k in 0..=48u64 {
+        let lv = max - k;
+        for prefix in prefixes {
+            for open in [0x15u8, 0x16, 0x17] {
+                for nest in 1..=2usize {
+                    for payload in [0usize, 3] {
+                        let mut v = Vec::new();
+                        for _ in 0..nest {
+                            v.push(open);
+                        }
+                        v.extend_from_slice(prefix);
+                        v.push(control);
+                        v.extend(tag_bytes(tt));
+                        v.extend_from_slice(&lv.to_le_bytes()[..w]);
+                        v.extend(std::iter::repeat(b'a').take(payload));
+                        v.extend_from_slice(&[0x24, 0x02, 0x07]);
+                        for _ in 0..nest {
+                            v.push(0x18);
+                        }
+                        out.push(v);
+                    }
+                }
+            }
+        }
+    }
+    out
+}
+
+fn a3() -> Acc {
+    (0u32..256)
+        .into_par_iter()
+        .map(|c| {
+            let mut acc = Acc::default();
+            for inp in a3_inputs_for(c as u8) {
+                probe_input(&inp, true, &mut acc);
+            }
+            acc
+        })
+        .reduce(Acc::default, Acc::merge)
+}
+
 fn a2() -> Acc {
     (0u32..256)
         .into_par_iter()
@@ -1222,7 +1276,7 @@ pub fn run(ctx: &Ctx) -> i32 {
     let a1 = a1(ctx.tier);
     let a1_n = a1.inputs;
     let t_a1 = t.elapsed().as_secs_f64();
-    let a2 = a2();
+    let a2 = a2().merge(a3());
     let a2_n = a2.inputs;
     let b = part_b(ctx.tier);
     let b_n = b.inputs;
@@ -1240,6 +1294,7 @@ pub fn run(ctx: &Ctx) -> i32 {
             json!(format!(
                 "A1: every byte string of length <= {} plus every string up to length {} with any first byte and the rest from a 16-value boundary alphabet; \
                  A2: every control byte x tag form x length field in {{0..5,0x7f,0x80,0xff,0x100,0xffff,0x10000,2^31-1,2^31,2^32-1,2^32,2^63-1,2^63,2^64-1}} x payload {{0,1,2,5}} x nesting 0..3 x every truncation; \
+                 A3: every string / octet-string control byte x tag form with a length field of max-48..max of its width, behind 0..2 leading members or a nested container, in a structure / array / list, nesting 1..2; \
                  B: every leaf (ints/uints at all width extremes via every writer width, floats incl. NaN/inf, strings/octets with lengths around every length-field width) x 15 tag forms x nesting 0..3, plus every tree of <= {} nodes over a 9-leaf/3-tag alphabet; \
                  D: value round trips of AttrPath/CmdPath/TimedReq over option/extreme products and every single-byte/bit mutation and truncation of their encodings fed to all 25 public derived decoders. \
                  distinct_nontrivial counts inputs on which more than two accessors (or a full round trip) succeeded.",
